@@ -43,7 +43,7 @@ def prop(pid, **kw):
 prop("C04", module="MW.Props.C04", title="exchange-rate fairness",
      variants=["liquid_stake", "submit_batch"], state_keys=["state"],
      pure=["compute_mint_amount", "compute_unbond_amount", "multiply_ratio"],
-     weights={"stake": 30, "unstake": 15, "submit": 15, "rewards": 8, "advance": 12},
+     weights={"drain": 1.5, "stake": 30, "unstake": 15, "submit": 15, "rewards": 8, "advance": 12},
      monitors=["rate"],
      assumptions=["amounts and totals are 128-bit unsigned integers; results are stated for representable results (the checked operation succeeded)"])
 
@@ -62,7 +62,7 @@ prop("C10", module="MW.Props.C10", title="circuit breaker",
 
 prop("C11", module="MW.Props.C11", title="protocol fee accounting",
      variants=["receive_rewards", "fee_withdraw", "liquid_stake", "update_config"], state_keys=["state"],
-     weights={"rewards": 25, "fee_withdraw": 10, "update_config": 8, "stake": 12, "ack": 8},
+     weights={"drain": 1.5, "rewards": 25, "fee_withdraw": 10, "update_config": 8, "stake": 12, "ack": 8, "resume": 4, "breaker": 2},
      pure=["multiply_ratio"])
 
 prop("C15", module="MW.Props.C15", title="oracle rates",
@@ -84,7 +84,7 @@ prop("C13", module="MW.Props.C13", title="treasury swaps and spending", skip_sta
 prop("C05", module="MW.Props.C05", title="pro-rata, at-most-once withdrawal",
      variants=["liquid_unstake", "withdraw", "submit_batch", "receive_unstaked_tokens"],
      state_keys=["requests", "batches"], pure=["multiply_ratio"],
-     weights={"unstake": 22, "withdraw": 22, "submit": 10, "deliver": 12, "stake": 14, "advance": 10, "longrun": 0.5},
+     weights={"unstake": 22, "withdraw": 22, "submit": 10, "deliver": 12, "stake": 14, "advance": 10, "longrun": 0.5, "dust": 1.5},
      profile={"legacy": 0.03})
 
 prop("C06", module="MW.Props.C06", title="batch lifecycle and timing",
@@ -118,14 +118,14 @@ prop("C14", module="MW.Props.C14", title="well-formed configuration, sectional u
 
 prop("C17", module="MW.Props.C17", title="complete pagination, consistent per-user index",
      variants=[], state_keys=["batches", "requests", "ibc_queue", "reply_queue", "pending"],
-     weights={"unstake": 22, "withdraw": 16, "submit": 12, "deliver": 10, "stake": 14, "ack": 8, "timeout": 4, "longrun": 1.2, "update_config": 5},
+     weights={"unstake": 22, "withdraw": 16, "submit": 12, "deliver": 10, "stake": 14, "ack": 8, "timeout": 4, "longrun": 1.2, "update_config": 5, "dust": 1.5},
      profile={"queries": 0.5, "legacy": 0.02},
      assumptions=["the model answers UnstakeRequests by filtering one request list (the specification); the upkeep of the real secondary index is covered differentially"])
 
 prop("C09", module="MW.Props.C09", title="ibc-hooks sender derivation",
      variants=["receive_rewards", "receive_unstaked_tokens", "update_config"], state_keys=["config"],
      pure=["derive_intermediate_sender", "channel_ok", "validate_address_prefix"],
-     weights={"deliver": 25, "rewards": 25, "update_config": 14, "unauthorized": 10, "submit": 8, "unstake": 8, "stake": 10, "outage": 0},
+     weights={"deliver": 25, "rewards": 25, "update_config": 14, "unauthorized": 18, "submit": 8, "unstake": 8, "stake": 10, "outage": 0},
      profile={"reroute": 0.6},
      assumptions=["SHA-256 collision resistance (the no-impersonation theorem is a reduction to a collision)",
                   "the specification is osmosis x/ibc-hooks DeriveIntermediateSender + cosmos-sdk address.Hash; an independent Python implementation (hashlib + reference bech32) is compared on every generated triple"])
@@ -140,7 +140,7 @@ LEDGER_NOTE = ("the equations about the chain's bank / token-factory / IBC ledge
 prop("C01", module="MW.Props.C01", title="staked-asset accounting fully backed", builds=["osmosis", "miniwasm"], extra=["migration"],
      variants=["liquid_stake", "receive_rewards", "submit_batch", "recover_pending_ibc_transfers", "reply", "sudo", "resume_contract"],
      state_keys=["state", "batches", "ibc_queue", "raw_totals"],
-     weights={"stake": 22, "rewards": 10, "unstake": 10, "submit": 10, "ack": 12, "timeout": 5, "recover": 8, "resume": 3, "deliver": 6},
+     weights={"drain": 1.5, "stake": 22, "rewards": 10, "unstake": 10, "submit": 10, "ack": 12, "timeout": 5, "recover": 8, "resume": 3, "deliver": 6},
      quick_histories=80,
      assumptions=["StableRouting and NoForcedResendOfInFlight for the ledger-location part (DESIGN.md §4.4)", LEDGER_NOTE])
 
@@ -148,7 +148,7 @@ prop("C02", module="MW.Props.C02", title="solvency of the contract-held staked a
      variants=["liquid_stake", "receive_rewards", "receive_unstaked_tokens", "withdraw", "fee_withdraw",
                "recover_pending_ibc_transfers", "reply", "sudo"],
      state_keys=["state", "batches", "requests", "ibc_queue"],
-     weights={"withdraw": 20, "deliver": 14, "unstake": 14, "submit": 10, "stake": 14, "rewards": 8, "fee_withdraw": 6, "ack": 8, "timeout": 4, "recover": 6, "donate": 2},
+     weights={"drain": 1.5, "withdraw": 20, "deliver": 14, "unstake": 14, "submit": 10, "stake": 14, "rewards": 8, "fee_withdraw": 6, "ack": 8, "timeout": 4, "recover": 6, "donate": 2},
      assumptions=[LEDGER_NOTE])
 
 prop("C03", module="MW.Props.C03", title="LST supply integrity and exact delivery", builds=["osmosis", "miniwasm"],
